@@ -7,6 +7,7 @@ fiat-crypto / arkworks primitives of C10 — and validated by the correspondence
 -/
 import Decaf.Props.C10
 import Decaf.Lemmas.Formulas.OpForms
+import Decaf.Lemmas.Formulas.FieldFns
 
 namespace C10.Translated
 open Model
@@ -39,5 +40,11 @@ theorem empty_sum_prod {K : Type} [Field K] :
     (∀ f ∈ (Gen.FieldOpForms.prodForms : List (String × (List K → K))), f.2 [] = 1) :=
   ⟨fun f hf => by rw [Formulas.FieldOpForms.sumForms_correct f hf]; rfl,
    fun f hf => by rw [Formulas.FieldOpForms.prodForms_correct f hf]; rfl⟩
+
+/-- **exponentiation honours the whole multi-limb exponent**: the translated `Fq::power` (src/fields/fq.rs, the loop
+`for limb in exp { for i in 0..64 { … } }` regenerated on every run) is x to the integer the limbs denote, for any number of limbs -/
+theorem power_spec (x : ℕ) (limbs : List ℕ) (h : ∀ l ∈ limbs, l < 2 ^ 64) :
+    ((Code.fqPower x limbs : ℕ) : ZMod q) = (x : ZMod q) ^ Lit.ofLimbs 64 limbs := by
+  rw [Code.fqPower_eq]; exact C10.power_spec Exec.fqP x limbs h
 
 end C10.Translated
